@@ -28,6 +28,9 @@ type c04Cfg struct {
 	NoNoop bool `json:"nonoop"`
 	Calls  int  `json:"calls,omitempty"`  // number of consecutive Send calls on the one connection (default 1)
 	NilMsg bool `json:"nilmsg,omitempty"` // a nil *Msg sits in the middle of the batch
+	// Redial: history — the same Client has already completed a fault-free dial / send / close against a server that
+	// advertised the COMPLEMENTARY capability set; the judged session is the one of the second dial
+	Redial bool `json:"redial,omitempty"`
 }
 
 type c04Case struct {
@@ -171,7 +174,21 @@ func c04Exec(r *vf.Run, cfg c04Cfg, c *vf.Chooser) (keys []string, whats []strin
 	}
 	conn := refsmtp.NewConn(sess)
 	conn.TLSConfig = hx.ServerTLS(hx.Mat().Good)
+	var pre *refsmtp.Conn
+	if cfg.Redial {
+		ps := &refsmtp.Session{Host: hx.Host, Caps: capsFromMask(cfg.Caps ^ 0b101111)}
+		ps.CapsTLS = capsFromMask((cfg.Caps ^ 0b101000) &^ (1 << 4))
+		ps.NewAuth = sess.NewAuth
+		pre = refsmtp.NewConn(ps)
+		pre.TLSConfig = hx.ServerTLS(hx.Mat().Good)
+	}
 	rig := &hx.Rig{Mk: func(n int) *refsmtp.Conn {
+		if pre != nil {
+			n--
+			if n < 0 {
+				return pre
+			}
+		}
 		if n > 0 {
 			return nil
 		}
@@ -220,6 +237,14 @@ func c04Exec(r *vf.Run, cfg c04Cfg, c *vf.Chooser) (keys []string, whats []strin
 	var dialErr, sendErr error
 	var callErrs []error
 	pan, pwhat := vf.Guard(func() {
+		if pre != nil {
+			// the history connection: whatever happens there (the complementary capability set may make the send
+			// fail locally) is not judged; it only has to be over before the judged dial
+			if err := cl.DialWithContext(context.Background()); err == nil {
+				_ = cl.Send(hx.StdMsg(900, cfg.R, mail.EncodingQP))
+				_ = cl.Close()
+			}
+		}
 		dialErr = cl.DialWithContext(context.Background())
 		if dialErr == nil {
 			for k := 0; k < calls; k++ {
@@ -436,7 +461,7 @@ func init() {
 	vf.Register(&vf.Check{
 		ID: "C04", Title: "SMTP dialogue stays legal and in step under every reply script",
 		Run: func(r *vf.Run) {
-			r.SetRule("every reply script with at most k deviations from the all-success script (alphabet ok / 4yz / 5yz / drop / multi-line success reply at every command position incl. greeting, EHLO, STARTTLS, AUTH, NOOP, RSET, QUIT) × client configuration × advertised capability subset × batch shape; each execution runs the real Client against the reference SMTP automaton in lock-step; a case is distinct by (configuration, choice vector)")
+			r.SetRule("every reply script with at most k deviations from the all-success script (alphabet ok / 4yz / 5yz / drop / multi-line success reply at every command position incl. greeting, EHLO, STARTTLS, AUTH, NOOP, RSET, QUIT) × client configuration × advertised capability subset (another one after STARTTLS; and, as a history, the complementary one on an earlier connection of the same Client) × batch shape × number of Send calls; each execution runs the real Client against the reference SMTP automaton in lock-step; a case is distinct by (configuration, choice vector)")
 			r.Assume("server never offers PIPELINING", "transport writes succeed after the peer closed (bytes discarded) and the next read reports EOF",
 				"a reply is 'read' once its bytes left the connection (bufio may hold them)")
 			type job struct {
@@ -467,6 +492,14 @@ func init() {
 								}
 							}
 						}
+					}
+				}
+			}
+			// histories: the Client was connected before to a server with the complementary capability set
+			for caps := 0; caps < 64; caps++ {
+				for tls := 0; tls < 2; tls++ {
+					for enc := 0; enc < 2; enc++ {
+						jobs = append(jobs, job{c04Cfg{TLS: tls, DSN: 1, Enc8: enc == 1, Caps: caps, M: 1, R: 2, Redial: true}, 1})
 					}
 				}
 			}
